@@ -491,6 +491,7 @@ func runScript(t c15Target, dev deviation, pki *tlsPKI, seed uint64, cfg *gmtls.
 			res.noReturn = true
 			peerConn.Close()
 			endConn.Close()
+			defer noteSpin()
 			return res
 		}
 	}
